@@ -189,6 +189,7 @@ type profile struct {
 	starveAppl int // per mille runs using the applier-starvation strategy
 	maxSteps   int
 	race       bool
+	lowerMax   int // per mille of runs in which UpdateMaxCost may also lower MaxCost
 }
 
 // Capacity modes.
@@ -210,7 +211,7 @@ func init() {
 	add(&profile{name: "mixed", clientsLo: 2, clientsHi: 6, opsLo: 5, opsHi: 30, keysLo: 1, keysHi: 8,
 		mix:     mix{get: 30, set: 25, setTTL: 10, del: 10, getTTL: 3, iter: 2, wait: 4, clear: 2, upmax: 1, reads: 2, yield: 3},
 		capMode: []int{CapTiny, CapFew, CapFew, CapHalf, CapAll}, bufSmall: 600, collide: 0, strKeys: 300,
-		pClockLo: 0, pClockHi: 60, ttlNeg: 50, shouldUpd: 150, costFn: 200, metricsPM: 500, epilogue: "std", quiescePM: 30, starveAppl: 200})
+		pClockLo: 0, pClockHi: 60, ttlNeg: 50, shouldUpd: 150, costFn: 200, metricsPM: 500, epilogue: "std", quiescePM: 30, starveAppl: 200, lowerMax: 300})
 	// C01: key sets engineered to collide on the primary hash
 	add(&profile{name: "collide", clientsLo: 2, clientsHi: 6, opsLo: 5, opsHi: 30, keysLo: 2, keysHi: 8,
 		mix:     mix{get: 35, set: 28, setTTL: 8, del: 10, getTTL: 2, iter: 2, wait: 4, clear: 2, upmax: 1, yield: 3},
@@ -220,7 +221,7 @@ func init() {
 	add(&profile{name: "race", clientsLo: 2, clientsHi: 8, opsLo: 3, opsHi: 25, keysLo: 1, keysHi: 8,
 		mix:     mix{get: 25, set: 22, setTTL: 10, del: 8, getTTL: 5, iter: 5, wait: 6, clear: 5, upmax: 4, reads: 8, yield: 2},
 		capMode: []int{CapTiny, CapFew, CapFew, CapHalf, CapAll}, bufSmall: 600, collide: 0, strKeys: 200,
-		pClockLo: 0, pClockHi: 60, ttlNeg: 30, shouldUpd: 150, costFn: 200, metricsPM: 600, epilogue: "race", quiescePM: 0, starveAppl: 200, race: true})
+		pClockLo: 0, pClockHi: 60, ttlNeg: 30, shouldUpd: 150, costFn: 200, metricsPM: 600, epilogue: "race", quiescePM: 0, starveAppl: 200, race: true, lowerMax: 500})
 	// C02: overwrite / delete heavy on very few keys
 	add(&profile{name: "overwrite", clientsLo: 2, clientsHi: 5, opsLo: 5, opsHi: 25, keysLo: 1, keysHi: 3,
 		mix:     mix{get: 35, set: 35, setTTL: 8, del: 12, wait: 3, clear: 2, yield: 5, iter: 2},
@@ -233,24 +234,24 @@ func init() {
 		pClockLo: 0, pClockHi: 20, costFn: 300, metricsPM: 500, epilogue: "std", quiescePM: 60, costMono: 500, starveAppl: 100})
 	// C05: deletes racing buffered inserts on a focus key
 	add(&profile{name: "delete", clientsLo: 2, clientsHi: 4, opsLo: 6, opsHi: 25, keysLo: 2, keysHi: 5, focusKeys: 1,
-		mix:     mix{get: 30, set: 30, setTTL: 8, del: 15, wait: 12, yield: 4, clear: 1},
-		capMode: []int{CapAll, CapAll, CapFew}, bufSmall: 700, collide: 0, strKeys: 150,
-		pClockLo: 0, pClockHi: 30, shouldUpd: 50, metricsPM: 300, epilogue: "std", quiescePM: 20, starveAppl: 400})
+		mix:     mix{get: 30, set: 30, setTTL: 8, del: 15, wait: 12, yield: 4, clear: 1, upmax: 3},
+		capMode: []int{CapAll, CapAll, CapFew, CapFew}, bufSmall: 700, collide: 0, strKeys: 150,
+		pClockLo: 0, pClockHi: 30, shouldUpd: 50, metricsPM: 300, epilogue: "std", quiescePM: 20, starveAppl: 400, lowerMax: 500})
 	// C06/C07-early: one client, everything fits, lag = schedule
 	add(&profile{name: "single", clientsLo: 1, clientsHi: 1, opsLo: 10, opsHi: 40, keysLo: 1, keysHi: 6,
 		mix:     mix{get: 35, set: 22, setTTL: 12, del: 10, getTTL: 6, iter: 3, wait: 10, clear: 1, yield: 2},
 		capMode: []int{CapAll}, bufSmall: 500, collide: 0, strKeys: 200,
-		pClockLo: 0, pClockHi: 150, ttlNeg: 60, metricsPM: 500, epilogue: "std", quiescePM: 20, starveAppl: 300})
+		pClockLo: 0, pClockHi: 150, ttlNeg: 60, shouldUpd: 120, metricsPM: 500, epilogue: "std", quiescePM: 20, starveAppl: 300})
 	// C07 early rule: one client (so the reference model applies), TTL heavy, very few keys, sweeps racing re-writes
 	add(&profile{name: "singlettl", clientsLo: 1, clientsHi: 1, opsLo: 10, opsHi: 40, keysLo: 1, keysHi: 3,
 		mix:     mix{get: 35, set: 8, setTTL: 30, del: 5, getTTL: 8, iter: 2, wait: 12, yield: 6},
 		capMode: []int{CapAll}, bufSmall: 400, collide: 0, strKeys: 100,
-		pClockLo: 80, pClockHi: 350, ttlNeg: 20, metricsPM: 300, epilogue: "std", quiescePM: 10, starveAppl: 300})
+		pClockLo: 80, pClockHi: 350, ttlNeg: 20, shouldUpd: 150, metricsPM: 300, epilogue: "std", quiescePM: 10, starveAppl: 300})
 	// C07/C14: TTL heavy, few keys, sweeps
 	add(&profile{name: "ttl", clientsLo: 1, clientsHi: 3, opsLo: 5, opsHi: 25, keysLo: 1, keysHi: 4,
 		mix:     mix{get: 30, set: 10, setTTL: 35, del: 8, getTTL: 8, iter: 3, wait: 4, yield: 6, clear: 1},
 		capMode: []int{CapAll, CapAll, CapFew}, bufSmall: 400, collide: 0, strKeys: 100,
-		pClockLo: 60, pClockHi: 300, ttlNeg: 30, metricsPM: 300, epilogue: "ttl", quiescePM: 20, starveAppl: 300})
+		pClockLo: 60, pClockHi: 300, ttlNeg: 30, shouldUpd: 120, metricsPM: 300, epilogue: "ttl", quiescePM: 20, starveAppl: 300})
 	// C15: close / clear
 	add(&profile{name: "close", clientsLo: 1, clientsHi: 4, opsLo: 3, opsHi: 20, keysLo: 1, keysHi: 6,
 		mix:     mix{get: 20, set: 30, setTTL: 10, del: 10, wait: 10, clear: 8, yield: 3, iter: 2},
@@ -403,6 +404,11 @@ func GenPlan(profName string, seed uint64) *Plan {
 	}
 	p.Flags.CostMonotone = mono
 	p.Flags.NoLowerMax = true
+	lowering := !mono && !hashDependent && g.p(pr.lowerMax)
+	if lowering {
+		p.Flags.NoLowerMax = false
+		p.Flags.AllFits = false // capacity can bind once MaxCost has been lowered
+	}
 
 	nclients := g.rng(pr.clientsLo, pr.clientsHi)
 	if pr.race {
@@ -511,7 +517,17 @@ func GenPlan(profName string, seed uint64) *Plan {
 			case 7:
 				prog = append(prog, Op{K: OpClear})
 			case 8:
-				prog = append(prog, Op{K: OpUpdateMaxCost, Arg: int64(g.rng(0, int(per)*2))})
+				arg := int64(g.rng(0, int(per)*2))
+				if lowering && g.p(600) {
+					// lower it: by a delta, or to an absolute small value (encoded as
+					// a large negative delta: the engine clamps the target at 1)
+					if g.p(500) {
+						arg = -int64(g.rng(1, int(per)*3))
+					} else {
+						arg = -(1 << 50) + g.pick64([]int64{1, 10, 55, 56, 57, 100})
+					}
+				}
+				prog = append(prog, Op{K: OpUpdateMaxCost, Arg: arg})
 			case 9:
 				prog = append(prog, Op{K: g.pick([]int{OpMaxCost, OpRemaining, OpMetrics})})
 			case 10:
